@@ -123,7 +123,7 @@ Step ==
        [] e.e = "StopRet" -> stopret' = TRUE /\ UNCHANGED <<wr, rc, seen, gap, nr, nl, cl, dead, added, live, oc, ec, stop, grace, viol>>
        [] e.e = "Grace" -> grace' = TRUE /\ UNCHANGED <<wr, rc, seen, gap, nr, nl, cl, dead, added, live, oc, ec, stop, stopret, viol>>
        [] e.e = "GraceRet" -> \* GracefulStop returns only when everything registered is closed, emptied, delivered and released
-                        /\ viol' = viol \cup (IF ~stop /\ ~Cfg.fault /\ (~AllClosed \/ ~AllDelivered \/ InFlight # 0) THEN {"C07"} ELSE {})
+                        /\ viol' = viol \cup Also17(IF ~stop /\ ~Cfg.fault /\ (~AllClosed \/ ~AllDelivered \/ InFlight # 0) THEN {"C07"} ELSE {})
                                         \cup (IF ~stop /\ ~Cfg.fault /\ ~AllDelivered THEN {"C02"} ELSE {})
                                         \* simplified disciplines: termination, however reached, implies that every Handle call has returned
                                         \cup (IF Cfg.unordered /\ InFlight # 0 THEN (IF stop THEN {"C07", "C16"} ELSE {"C07"}) ELSE {})
